@@ -16,14 +16,14 @@ use std::str::FromStr;
 /// one scripted answer of the random source
 #[derive(Clone)]
 enum Ans {
-    Bytes(Vec<u8>),      // exactly these bytes (length must match the request, otherwise the draw fails)
+    Bytes(Vec<u8>),      // these bytes, served as a stream across requests
     Any,                 // `*`: succeeds with a deterministic, draw-dependent pattern of the requested length
     Fail(i32),           // `!` (UNSUPPORTED), `!eN` (OS error N, e.g. 11 = EAGAIN, 4 = EINTR, 5 = EIO), `!cN` (custom error N)
     Partial(Vec<u8>),    // `~hex`: writes these bytes at the start of the buffer, then reports failure
 }
 
 thread_local! {
-    static SCRIPT: RefCell<(Vec<Ans>, usize, usize)> = const { RefCell::new((Vec::new(), 0, 0)) };   // answers, next index, failures consumed
+    static SCRIPT: RefCell<(Vec<Ans>, usize, usize, usize)> = const { RefCell::new((Vec::new(), 0, 0, 0)) };   // answers, next index, failures consumed, requests served
 }
 
 #[cfg(pm_custom_rng)]
@@ -39,29 +39,40 @@ fn mk_err(code: i32) -> getrandom::Error {
 #[cfg(pm_custom_rng)]
 #[unsafe(no_mangle)]
 unsafe extern "Rust" fn __getrandom_v03_custom(dest: *mut u8, len: usize) -> Result<(), getrandom::Error> {
+    // The script is a *byte stream* with failure points: how the library chunks its requests (one 32-byte draw, two
+    // 16-byte draws, a 1 KiB refill of a pool) is not something the property constrains.  Consecutive `Bytes` answers are
+    // served across request boundaries; a request larger than what is scripted is completed with the filler pattern; an
+    // exhausted script is a *working* source (filler).  A `Fail` / `Partial` answer fails the request that reaches it.
     SCRIPT.with(|s| {
         let mut s = s.borrow_mut();
-        let i = s.1;
-        s.1 += 1;
-        let a = s.0.get(i).cloned();
-        match a {
-            Some(Ans::Bytes(b)) if b.len() == len => {
-                unsafe { std::ptr::copy_nonoverlapping(b.as_ptr(), dest, len) };
-                Ok(())
+        let mut off = 0usize;
+        let call = s.3;
+        s.3 += 1;
+        while off < len {
+            let i = s.1;
+            let a = s.0.get(i).cloned();
+            match a {
+                Some(Ans::Bytes(b)) => {
+                    let n = b.len().min(len - off);
+                    unsafe { std::ptr::copy_nonoverlapping(b.as_ptr(), dest.add(off), n) };
+                    off += n;
+                    if n == b.len() { s.1 += 1; } else { s.0[i] = Ans::Bytes(b[n..].to_vec()); }
+                }
+                Some(Ans::Any) | None => {
+                    for k in off..len { unsafe { *dest.add(k) = (0x5b ^ (call as u8).wrapping_mul(37) ^ (k as u8).wrapping_mul(101)).wrapping_add((k >> 8) as u8) }; }
+                    off = len;
+                    if a.is_some() { s.1 += 1; }
+                }
+                Some(Ans::Fail(c)) => { s.1 += 1; s.2 += 1; return Err(mk_err(c)); }
+                Some(Ans::Partial(b)) => {
+                    let n = b.len().min(len - off);
+                    unsafe { std::ptr::copy_nonoverlapping(b.as_ptr(), dest.add(off), n) };
+                    s.1 += 1; s.2 += 1;
+                    return Err(getrandom::Error::UNEXPECTED);
+                }
             }
-            Some(Ans::Any) => {
-                for k in 0..len { unsafe { *dest.add(k) = (0x5b ^ (i as u8).wrapping_mul(37) ^ (k as u8).wrapping_mul(101)).wrapping_add((k >> 8) as u8) }; }
-                Ok(())
-            }
-            Some(Ans::Fail(c)) => { s.2 += 1; Err(mk_err(c)) }
-            Some(Ans::Partial(b)) => {
-                let n = b.len().min(len);
-                unsafe { std::ptr::copy_nonoverlapping(b.as_ptr(), dest, n) };
-                s.2 += 1;
-                Err(getrandom::Error::UNEXPECTED)
-            }
-            _ => { s.2 += 1; Err(getrandom::Error::UNSUPPORTED) }
         }
+        Ok(())
     })
 }
 
@@ -79,7 +90,7 @@ fn set_script(src: &str) -> Option<()> {
         }).collect()
     };
     let answers = answers?;
-    SCRIPT.with(|s| *s.borrow_mut() = (answers, 0, 0));
+    SCRIPT.with(|s| *s.borrow_mut() = (answers, 0, 0, 0));
     Some(())
 }
 
